@@ -29,7 +29,7 @@ META = dict(
                   'the database itself keeps a committed transaction atomic across crashes (its contract, not pony\'s)'],
     assumptions=['crash points (process death between two statements) and the file contents read by a new process are NOT explored: outside contract-based verification; '
                  'they reduce to the database\'s guarantee under the clauses proved here',
-                 'one database per session (commit() over several databases is not atomic by design)',
+                 'atomicity ACROSS several databases of one session is not claimed (commit() commits the primary database first, by design); session.two_databases claims what holds per database and that nothing is left in limbo',
                  'the session body stops at the first exception'],
 )
 
@@ -396,7 +396,97 @@ def _fc_spec(cfg, i, path):
     return path.outcome == 'ret' and g == [('cache.flush', 'ok'), ('cache.commit', 'ok')]
 
 
+# ------------------------------------------------------------------ one db_session over TWO databases
+def _two_configs(tier):
+    out = []
+    for kind in ('generic', 'sqlite'):
+        for pending_in in ('first', 'second', 'both', 'none'):            # which database has objects waiting for the flush that commit() performs
+            for body_raises in (False, True):
+                out.append(dict(provider=kind, pending_in=pending_in, body_raises=body_raises, explicit_commit=False))
+            out.append(dict(provider=kind, pending_in=pending_in, body_raises=False, explicit_commit=True))       # the body calls commit() itself and goes on after an error
+    return out
+
+
+def _two_case(cfg, values):
+    def call():
+        st = cur().state
+        d = st['dbs'] = []
+        for k in (0, 1):
+            sub = {}
+            db, p = _mk_db(cfg['provider'], sub)
+            sub['name'] = 'db%d' % k; sub['done'] = []
+            d.append(sub)
+        s = core.DBSessionContextManager()
+        s._enter()
+        exc = None
+        try:
+            for k, sub in enumerate(d):
+                db = sub['db']
+                sql = 'INSERT direct%d' % k
+                db._exec_sql(sql, None, False, True)                     # a write that is already sent when the session ends
+                sub['done'].append(sql)
+                if cfg['pending_in'] in (('first', 'both') if k == 0 else ('second', 'both')):
+                    cache = db._get_cache()
+
+                    class Obj(object):                                   # an object waiting in the save queue: its INSERT is sent by the flush inside commit()
+                        _status_ = 'created'
+                        def _before_save_(o): pass
+                        def _save_(o, db=db, sub=sub, k=k):
+                            sql = 'INSERT flushed%d' % k
+                            db._exec_sql(sql, None, False, True)
+                            sub['done'].append(sql)
+                    cache.objects_to_save.append(Obj()); cache.modified = True
+            if cfg['explicit_commit']:
+                try: core.commit()
+                except Exception as e:
+                    if type(e).__name__ in ('Concretization', 'Unsupported'): raise
+                    st['commit_exc'] = e
+                    committed = any(g[0] == 'con.commit' and g[1] == 'ok' for g in cur().ghost)
+                    # a commit() that failed before anything was committed has rolled the whole session back: nothing may wait in any database for a later commit
+                    if not committed: st['limbo_after_failed_commit'] = [(sub['name'], list(c.pending)) for sub in d for c in sub['cons'] if c.pending]
+                    for sub in d: sub['done'] = [] if not committed else sub['done']
+            if cfg['body_raises']: raise c19.BodyError('body')
+        except BaseException as e:
+            if type(e).__name__ in ('Concretization', 'Unsupported'): raise
+            exc = e
+        st['body_exc'] = exc
+        try:
+            s.__exit__(type(exc) if exc is not None else None, exc, None)
+        except BaseException as e2:
+            if type(e2).__name__ in ('Concretization', 'Unsupported'): raise
+            st['exit_exc'] = e2
+        st['alive'] = [c.database for c in core.local.db2cache.values()]          # session caches that outlive the session
+        return 'ended'
+    return Case(call, {}, [], c19._session_setup, c19._session_teardown)
+
+
+def _two_spec(cfg, i, path):
+    """Across databases commit() is not atomic (by design: the primary is committed first) - NOT claimed. Claimed: when the session has ended, no database is left with
+    writes of this session that are neither committed nor rolled back (a later session would commit them), no session cache outlives the session, each database for itself
+    holds none or all of the session's writes, a failed body leaves nothing durable anywhere, and a failure BEFORE the first commit (e.g. in the flush that commit() runs
+    first for every database) leaves nothing durable anywhere either; a session that reported success made everything durable."""
+    st = path.state
+    if path.outcome != 'ret': return False
+    failed = st.get('body_exc') is not None or 'exit_exc' in st or 'commit_exc' in st          # (an error of the body's own commit() was reported to the body)
+    any_commit = any(g[0] == 'con.commit' and g[1] == 'ok' for g in path.ghost)
+    why = st['why'] = []
+    for sub in st['dbs']:
+        durable = [x[0] for x in sub['led'].durable]
+        if any(c.pending for c in sub['cons']): why.append('%s: writes neither committed nor rolled back: %r' % (sub['name'], [c.pending for c in sub['cons']]))
+        if durable and durable != sub['done']: why.append('%s: durable %r of %r' % (sub['name'], durable, sub['done']))
+        if st.get('body_exc') is not None and durable: why.append('%s: the body failed but %r is durable' % (sub['name'], durable))
+        if not failed and durable != sub['done']: why.append('%s: success reported, durable %r of %r' % (sub['name'], durable, sub['done']))
+        if not any_commit and durable: why.append('%s: durable without a commit' % sub['name'])
+    if st['alive']: why.append('session caches outlive the session: %d' % len(st['alive']))
+    if st.get('limbo_after_failed_commit'): why.append('commit() failed before anything was committed, but writes stay pending: %r' % (st['limbo_after_failed_commit'],))
+    return not why
+
+
 CONTRACTS = [
+    Contract('session.two_databases', ['pony.orm.core:commit', 'pony.orm.core:rollback', 'pony.orm.core:rollback_and_reraise', 'pony.orm.core:DBSessionContextManager.__exit__',
+                                       'pony.orm.core:DBSessionContextManager._commit_or_rollback', 'pony.orm.core:SessionCache.flush', 'pony.orm.core:SessionCache.commit',
+                                       'pony.orm.core:SessionCache.rollback', 'pony.orm.core:SessionCache.close'], _two_configs, _two_case,
+             [('no_database_left_in_limbo_and_each_database_all_or_nothing', _two_spec)], budget=40000),
     Contract('session.ledger', ['pony.orm.core:Database._exec_sql', 'pony.orm.core:SessionCache.prepare_connection_for_query_execution', 'pony.orm.core:SessionCache.connect',
                                 'pony.orm.core:SessionCache.reconnect', 'pony.orm.core:SessionCache.flush_and_commit', 'pony.orm.core:SessionCache.commit',
                                 'pony.orm.core:SessionCache.close', 'pony.orm.core:DBSessionContextManager.__exit__', 'pony.orm.core:DBSessionContextManager._commit_or_rollback',
@@ -421,3 +511,5 @@ from contracts import c18 as _c18
 # a body interrupted half way (by any BaseException) must never be committed: the decorator form and the context-manager exit are contracted under C18 and shared here
 CONTRACTS += [c for c in _c18.CONTRACTS if c.id in ('_wrap_function.new_func', '_commit_or_rollback')]
 
+if hasattr(c19, 'CONTRACTS') and not any(c.id == 'session.two_databases' for c in c19.CONTRACTS):
+    c19.CONTRACTS.extend(c for c in CONTRACTS if c.id == 'session.two_databases')          # shared with C19 (see c19._share_two_databases)
